@@ -60,6 +60,7 @@ POOL: Dict[str, List[Tuple[str, Any, str]]] = {
         ("2020-01-01/2020-12-31", "2020-01-01/2020-12-31", "intervalA"), ("2020-01-15/2020-01-15", "2020-01-15/2020-01-15", "intervalD"),
         ("2020-04-01/2020-06-30", "2020-04-01/2020-06-30", "intervalQ"), ("2020-01-02/2020-03-05", "2020-01-02/2020-03-05", "intervalX"),
         ("2020-12-31/2020-01-01", "2020-12-31/2020-01-01", "badinterval"), ("2020-01-01/", "2020-01-01/", "badinterval"),
+        ("2019-12-30/2020-01-05", "2019-12-30/2020-01-05", "intervalW1prev"), ("2020-12-28/2021-01-03", "2020-12-28/2021-01-03", "intervalW53"),
         # durations
         ("P1Y", "P1Y", "durISO"), ("P6M", "P6M", "durISO"), ("P3M", "P3M", "durISO"), ("P1M", "P1M", "durISO"), ("P1W", "P1W", "durISO"),
         ("P7D", "P7D", "durISO"), ("P1D", "P1D", "durISO"), ("p1y", "p1y", "durISOlow"), ("P2Y", "P2Y", "baddur"), ("PT1H", "PT1H", "baddur"),
@@ -72,13 +73,23 @@ POOL: Dict[str, List[Tuple[str, Any, str]]] = {
     "Time_Period": [("2020A", "2020A", "A"), ("2020", "2020", "A"), ("2020-S1", "2020-S1", "S"), ("2020S2", "2020S2", "S"), ("2020-Q3", "2020-Q3", "Q"),
                     ("2020Q4", "2020Q4", "Q"), ("2020-M02", "2020-M02", "M"), ("2020M12", "2020M12", "M"), ("2020-W53", "2020-W53", "W53"),
                     ("2021-W01", "2021-W01", "W"), ("2020-D366", "2020-D366", "D366"), ("2020-D001", "2020-D001", "D"), ("2021D365", "2021D365", "D"),
-                    ("2020D15", "2020D15", "D"), ("2020-D060", "2020-D060", "Dleap"), ("null", None, "null")],
+                    ("2020D15", "2020D15", "D"), ("2020-D060", "2020-D060", "Dleap"), ("2020-W01", "2020-W01", "W01prev"),
+                    ("2015-W53", "2015-W53", "W53"), ("2019-D365", "2019-D365", "D365"), ("2020-Q4", "2020-Q4", "Q"), ("2020-S2", "2020-S2", "S"),
+                    ("null", None, "null")],
     "Time": [("2020-01-15/2020-01-15", "2020-01-15/2020-01-15", "same"), ("2020-02-29/2020-02-29", "2020-02-29/2020-02-29", "same"),
              ("2020-01-01/2020-12-31", "2020-01-01/2020-12-31", "year"), ("2020-01-01/2020-06-30", "2020-01-01/2020-06-30", "semester"),
              ("2020-07-01/2020-12-31", "2020-07-01/2020-12-31", "semester"), ("2020-04-01/2020-06-30", "2020-04-01/2020-06-30", "quarter"),
              ("2020-02-01/2020-02-29", "2020-02-01/2020-02-29", "month"), ("2020-12-28/2021-01-03", "2020-12-28/2021-01-03", "week53"),
              ("2021-01-04/2021-01-10", "2021-01-04/2021-01-10", "week"), ("2020-01-02/2020-03-05", "2020-01-02/2020-03-05", "irregular"),
-             ("2020-01-01/2021-12-31", "2020-01-01/2021-12-31", "twoyears"), ("null", None, "null")],
+             ("2020-01-01/2021-12-31", "2020-01-01/2021-12-31", "twoyears"),
+             # year boundaries: ISO week-year differs from the calendar year at either end; leap day / day 366; quarter, semester, month ends
+             ("2019-12-30/2020-01-05", "2019-12-30/2020-01-05", "week1prev"), ("2018-12-31/2019-01-06", "2018-12-31/2019-01-06", "week1prev"),
+             ("2024-12-30/2025-01-05", "2024-12-30/2025-01-05", "week1prev"), ("2015-12-28/2016-01-03", "2015-12-28/2016-01-03", "week53"),
+             ("2016-01-04/2016-01-10", "2016-01-04/2016-01-10", "week"), ("2020-12-31/2020-12-31", "2020-12-31/2020-12-31", "same366"),
+             ("2019-12-31/2019-12-31", "2019-12-31/2019-12-31", "same365"), ("2020-10-01/2020-12-31", "2020-10-01/2020-12-31", "quarter"),
+             ("2020-01-01/2020-03-31", "2020-01-01/2020-03-31", "quarter"), ("2021-02-01/2021-02-28", "2021-02-01/2021-02-28", "month"),
+             ("2020-12-01/2020-12-31", "2020-12-01/2020-12-31", "month"), ("2020-01-07/2020-01-13", "2020-01-07/2020-01-13", "sevendays"),
+             ("null", None, "null")],
     "Duration": [("A", "A", "A"), ("S", "S", "S"), ("Q", "Q", "Q"), ("M", "M", "M"), ("W", "W", "W"), ("D", "D", "D"), ("null", None, "null")],
 }
 POOL["Null"] = [("null", None, "null")]       # the literal null (type Null), scalar level only
@@ -303,8 +314,8 @@ STRING_CLASSES_FOR = {
     "Boolean": {"bool", "boolsp", "bool01", "bad", "empty"},
     "Date": {"date", "baddate", "datetime"},
     "Time_Period": {"periodA", "periodS", "periodQ", "periodM", "periodW", "periodD", "badperiod", "date", "baddate", "datetime",
-                    "intervalA", "intervalD", "intervalQ", "intervalX", "badinterval"},
-    "Time": {"intervalA", "intervalD", "intervalQ", "intervalX", "badinterval", "periodA", "periodM", "date"},
+                    "intervalA", "intervalD", "intervalQ", "intervalX", "badinterval", "intervalW1prev", "intervalW53"},
+    "Time": {"intervalA", "intervalD", "intervalQ", "intervalX", "badinterval", "intervalW1prev", "intervalW53", "periodA", "periodM", "date"},
     "Duration": {"durISO", "durISOlow", "baddur", "durshort", "durshortlow"},
 }
 
